@@ -1,6 +1,7 @@
 (* Proofs/AfmFacts.v — the AFM writer / reader pair (Format/Afm.v):
    C06: reading the syntax tree the writer produced returns the normal form of the model
-        (single-child relations first, then the groups; constraints named by their text);
+        (the relations written without a cardinality — one child under (1,1) or (0,1) — first, then the groups,
+        a group may have one child; constraints named by their text);
    C02: for EVERY syntax tree the reader accepts, the back pointers are right and every constraint
         has the shape the library consumes. *)
 From Coq Require Import List Bool Ascii String ZArith Lia Permutation DecimalString Decimal DecimalZ DecimalPos.
@@ -120,15 +121,15 @@ Lemma afm_to_int_z z : afm_to_int (z_to_string z) = Ok z.
 Proof. unfold afm_to_int. rewrite string_to_z_to_string. reflexivity. Qed.
 
 (* ================================================================== Part 1: the AFM fragment (C06) *)
-(* the AFM fragment: unique names; every relation is a single mandatory / optional child, or a group of two or more
-   children with any cardinality 0 <= min (the grammar has no negative integers); attributes with a domain that is a
+(* the AFM fragment: unique names; every relation has at least one child and any cardinality 0 <= min, 0 <= max (the
+   grammar has no negative integers) — one child under (1,1) / (0,1) is written plain / in brackets, everything else,
+   also ONE child under any other cardinality, as a group "[min,max]{...}"; attributes with a domain that is a
    non-empty list of integer ranges (non-negative bounds) or a non-empty list of elements, integer / text values;
    logical constraints over NOT AND OR IMPLIES EQUIVALENCE REQUIRES EXCLUDES with name terms *)
 Definition afm_rel_ok (r : relation) : bool :=
   match r_children r with
   | [] => false
-  | [_] => rel_is_mandatory r || rel_is_optional r
-  | _ => (0 <=? r_min r)%Z && (0 <=? r_max r)%Z
+  | _ => (0 <=? r_min r)%Z && (0 <=? r_max r)%Z      (* any non-negative cardinality, also for one child *)
   end.
 Definition afm_val_ok (v : aval) : bool := match v with VInt z => (0 <=? z)%Z | VStr _ => true | _ => false end.
 Definition afm_attr_ok (a : attr) : bool :=
@@ -162,9 +163,36 @@ Definition afm_ok (m : fm) : bool :=
   afm_feature_ok (root m) && nodupb (names (root m)) && negb (feat_is_leaf (root m))
   && forallb (fun c => afm_node_ok (c_ast c)) (ctcs m).
 
-(* normal form: in every feature the single-child relations come first (in their order), then the groups (in their
-   order); every constraint is named by the text the writer wrote for it; the trees of the constraints are unchanged *)
-Definition is_single (r : relation) : bool := match r_children r with [_] => true | _ => false end.
+(* normal form: in every feature the relations written without a cardinality (one child under (1,1) or (0,1)) come
+   first (in their order), then the groups (in their order; a one-child relation with another cardinality is a group);
+   every constraint is named by the text the writer wrote for it; the trees of the constraints are unchanged *)
+Definition is_single (r : relation) : bool :=
+  match r_children r with [_] => rel_is_mandatory r || rel_is_optional r | _ => false end.
+
+(* the same, on the cardinality alone *)
+Lemma is_single_card r :
+  is_single r =
+  match r_children r with
+  | [_] => ((r_min r =? 1)%Z && (r_max r =? 1)%Z) || ((r_min r =? 0)%Z && (r_max r =? 1)%Z)
+  | _ => false
+  end.
+Proof.
+  destruct r as [a b [|c [|c' cs]]]; unfold is_single, rel_is_mandatory, rel_is_optional, nchildren;
+    cbn [r_children r_min r_max List.length]; [reflexivity| |reflexivity].
+  change (Z.of_nat 1 =? 1)%Z with true. rewrite !andb_true_r. reflexivity.
+Qed.
+
+Lemma is_single_iff r :
+  is_single r = true <-> exists c, r = Relation 1 1 [c] \/ r = Relation 0 1 [c].
+Proof.
+  rewrite is_single_card. destruct r as [a b [|c [|c' cs]]]; cbn [r_children r_min r_max].
+  - split; [discriminate|]. intros [c [H|H]]; discriminate.
+  - split.
+    + intros H. exists c. apply orb_prop in H. destruct H as [H|H]; apply andb_prop in H; destruct H as [Ha Hb];
+        apply Z.eqb_eq in Ha, Hb; subst; [left|right]; reflexivity.
+    + intros [c0 [H|H]]; inversion H; subst; reflexivity.
+  - split; [discriminate|]. intros [c0 [H|H]]; discriminate.
+Qed.
 Definition reorder (rs : list relation) : list relation :=
   filter is_single rs ++ filter (fun r => negb (is_single r)) rs.
 Definition maprel (g : feature -> feature) (r : relation) : relation :=
@@ -220,6 +248,54 @@ Example ex_roundtrip :
 Proof. vm_compute. reflexivity. Qed.
 
 Example ex_moved : afm_norm afm_ex_model <> afm_ex_model.
+Proof. vm_compute. discriminate. Qed.
+
+(* a second model, with ONE-child groups: (2,2), (0,3), (0,0), (1,0), (5,1) over one child, next to plain (1,1) / (0,1)
+   children and a two-child group; one-child groups at the root and below *)
+Definition afm_ex_model1 : fm :=
+  {| root :=
+       Feature (ex_info "R" [ex_attr_r])
+         [ Relation 2 2 [leaf "A"];
+           Relation 1 1 [leaf "B"];
+           Relation 0 3 [leaf "C"];
+           Relation 1 2 [leaf "D";
+                         Feature (ex_info "E" [ex_attr_d])
+                           [Relation 0 0 [leaf "E1"];
+                            Relation 0 1 [leaf "E2"];
+                            Relation 1 0 [Feature (ex_info "E3" []) [Relation 5 1 [leaf "E3a"]]]]];
+           Relation 0 1 [leaf "F"] ];
+     ctcs := [ {| c_name := "k1"; c_ast := bin IMPLIES (term "A") (bin OR (term "C") (term "E3a")) |} ] |}.
+
+Example ex1_ok : afm_ok afm_ex_model1 = true.
+Proof. vm_compute. reflexivity. Qed.
+
+Example ex1_roundtrip :
+  match afm_cst afm_ex_model1 with
+  | Ok d => afm_read_cst d = Ok (annotate_fm (afm_norm afm_ex_model1))
+  | Err _ => False
+  end.
+Proof. vm_compute. reflexivity. Qed.
+
+(* the one-child groups are written with their cardinality *)
+Example ex1_lines :
+  match afm_cst afm_ex_model1 with
+  | Ok d => ad_rels d =
+            [ {| rs_parent := "R";
+                 rs_items := [IGroup "2" "2" ["A"]; ISingle false "B"; IGroup "0" "3" ["C"]; IGroup "1" "2" ["D"; "E"];
+                              ISingle true "F"] |};
+              {| rs_parent := "E"; rs_items := [IGroup "0" "0" ["E1"]; ISingle true "E2"; IGroup "1" "0" ["E3"]] |};
+              {| rs_parent := "E3"; rs_items := [IGroup "5" "1" ["E3a"]] |} ]
+  | Err _ => False
+  end.
+Proof. vm_compute. reflexivity. Qed.
+
+(* in the normal form a one-child GROUP sorts with the groups, after the plain children *)
+Example ex1_norm_order :
+  map (fun r => (r_min r, r_max r, map name (r_children r))) (rels (root (afm_norm afm_ex_model1)))
+  = [ (1, 1, ["B"]); (0, 1, ["F"]); (2, 2, ["A"]); (0, 3, ["C"]); (1, 2, ["D"; "E"]) ]%Z.
+Proof. vm_compute. reflexivity. Qed.
+
+Example ex1_moved : afm_norm afm_ex_model1 <> afm_ex_model1.
 Proof. vm_compute. discriminate. Qed.
 
 (* ------------------------------------------------------------------ list helpers *)
@@ -293,7 +369,7 @@ Proof. induction 1 as [|x l Hx _ IH]; [reflexivity|]. cbn [map]. rewrite Hx, IH.
 
 (* ------------------------------------------------------------------ the normal form *)
 Lemma is_single_maprel g r : is_single (maprel g r) = is_single r.
-Proof. destruct r as [a b [|c [|c' cs]]]; reflexivity. Qed.
+Proof. rewrite !is_single_card. destruct r as [a b [|c [|c' cs]]]; reflexivity. Qed.
 
 Lemma reorder_perm rs : Permutation (reorder rs) rs.
 Proof. apply filter_partition_perm. Qed.
@@ -1099,21 +1175,34 @@ Lemma item_relations_eq its :
   match mapM grp its with Err e => Err e | Ok groups => Ok (flat_map sing its ++ List.concat groups) end.
 Proof. reflexivity. Qed.
 
+(* the three ways a relation of the fragment is written: plain (mandatory), in brackets (optional), or as a group —
+   a group may have ONE child (any cardinality other than (1,1) and (0,1)) *)
 Lemma afm_item_cases r : afm_rel_ok r = true ->
-  (exists c, (r = Relation 1 1 [c] /\ afm_item r = Some (ISingle false (name c)))
-             \/ (r = Relation 0 1 [c] /\ afm_item r = Some (ISingle true (name c))))
+  (exists c, r = Relation 1 1 [c] /\ afm_item r = Some (ISingle false (name c)))
+  \/ (exists c, r = Relation 0 1 [c] /\ afm_item r = Some (ISingle true (name c)))
   \/ (is_single r = false
       /\ afm_item r = Some (IGroup (z_to_string (r_min r)) (z_to_string (r_max r)) (map name (r_children r)))).
 Proof.
-  destruct r as [a b cs]. unfold afm_rel_ok, afm_item, is_single. cbn [r_children r_min r_max].
-  destruct cs as [|c [|c' cs]]; intros H; [discriminate| |right; split; reflexivity].
-  left. exists c. unfold rel_is_mandatory, rel_is_optional in H. cbn [r_min r_max] in H.
-  destruct ((a =? 1)%Z) eqn:Ha1; destruct ((b =? 1)%Z) eqn:Hb1; cbn [andb orb] in *.
-  - left. apply Z.eqb_eq in Ha1, Hb1. subst. split; reflexivity.
-  - destruct ((a =? 0)%Z); discriminate.
-  - destruct ((a =? 0)%Z) eqn:Ha0; cbn [andb] in H; [|discriminate].
-    right. apply Z.eqb_eq in Ha0, Hb1. subst. split; reflexivity.
-  - destruct ((a =? 0)%Z); discriminate.
+  destruct r as [a b cs]. unfold afm_rel_ok, afm_item. cbn [r_children r_min r_max].
+  destruct cs as [|c [|c' cs]]; intros H; [discriminate| |right; right; split; reflexivity].
+  destruct ((a =? 1)%Z && (b =? 1)%Z) eqn:E1.
+  { left. exists c. apply andb_prop in E1. destruct E1 as [Ha Hb]. apply Z.eqb_eq in Ha, Hb. subst.
+    split; reflexivity. }
+  destruct ((a =? 0)%Z && (b =? 1)%Z) eqn:E0.
+  { right. left. exists c. apply andb_prop in E0. destruct E0 as [Ha Hb]. apply Z.eqb_eq in Ha, Hb. subst.
+    split; reflexivity. }
+  right. right. split; [|reflexivity].
+  rewrite is_single_card. cbn [r_children r_min r_max]. rewrite E1, E0. reflexivity.
+Qed.
+
+(* a one-child relation whose cardinality is neither (1,1) nor (0,1) is written as a one-child group *)
+Lemma afm_item_one_child_group a b c :
+  ((a =? 1)%Z && (b =? 1)%Z) || ((a =? 0)%Z && (b =? 1)%Z) = false ->
+  afm_item (Relation a b [c]) = Some (IGroup (z_to_string a) (z_to_string b) [name c])
+  /\ is_single (Relation a b [c]) = false.
+Proof.
+  intros H. apply orb_false_elim in H. destruct H as [E1 E0].
+  unfold afm_item. rewrite is_single_card. cbn [r_children r_min r_max]. rewrite E1, E0. split; reflexivity.
 Qed.
 
 Lemma items_cons r rs x : afm_item r = Some x -> items (r :: rs) = x :: items rs.
@@ -1134,7 +1223,7 @@ Proof.
   - cbn [forallb] in Hok. apply andb_prop in Hok. destruct Hok as [Hr Hrs].
     destruct (IH Hrs) as [IH1 [[gs [IH2 IH3]] IH4]].
     cbn [map filter]. rewrite is_single_maprel.
-    destruct (afm_item_cases r Hr) as [[c [[-> Hi]|[-> Hi]]]|[Hs Hi]]; rewrite (items_cons _ _ _ Hi).
+    destruct (afm_item_cases r Hr) as [[c [-> Hi]]|[[c [-> Hi]]|[Hs Hi]]]; rewrite (items_cons _ _ _ Hi).
     + change (is_single (Relation 1 1 [c])) with true. cbn [negb].
       split; [|split].
       * change (flat_map sing (ISingle false (name c) :: items rs))
@@ -1755,7 +1844,28 @@ Section Parser.
     intros m Hok. destruct (afm_roundtrip (afm_norm m) (afm_norm_ok m Hok)) as [t [pm [H1 [H2 H3]]]].
     exists t, pm. split; [exact H1|]. split; [exact H2|]. rewrite H3. apply afm_norm_idem.
   Qed.
+
+  (* text identity: writing what was read from the text of the normal form gives the same text *)
+  Theorem afm_cycle_text : forall m, afm_ok m = true ->
+    exists t pm, afm_write (afm_norm m) = Ok t /\ afm_read t = Ok pm /\ afm_write (erase_fm pm) = Ok t.
+  Proof.
+    intros m Hok. destruct (afm_cycles m Hok) as [t [pm [H1 [H2 H3]]]].
+    exists t, pm. split; [exact H1|]. split; [exact H2|]. rewrite H3. exact H1.
+  Qed.
 End Parser.
+
+(* a second cycle writes the same syntax tree, hence the same text *)
+Theorem afm_cycle_cst : forall m, afm_ok m = true ->
+  exists d, afm_cst (afm_norm m) = Ok d
+            /\ afm_read_cst d = Ok (annotate_fm (afm_norm m))
+            /\ afm_cst (erase_fm (annotate_fm (afm_norm m))) = Ok d.
+Proof.
+  intros m Hok. destruct (afm_roundtrip_cst (afm_norm m) (afm_norm_ok m Hok)) as [d [Hd Hr]].
+  rewrite afm_norm_idem in Hr. exists d. split; [exact Hd|]. split; [exact Hr|].
+  replace (erase_fm (annotate_fm (afm_norm m))) with (afm_norm m); [exact Hd|].
+  unfold erase_fm, annotate_fm. cbn [proot pctcs]. rewrite erase_annotate.
+  destruct (afm_norm m); reflexivity.
+Qed.
 
 (* ================================================================== examples and assumptions *)
 Example ex_cycle :
@@ -1767,6 +1877,18 @@ Example ex_cycle :
 Proof. vm_compute. split; reflexivity. Qed.
 
 Example ex_norm_ok : afm_ok (afm_norm afm_ex_model) = true.
+Proof. vm_compute. reflexivity. Qed.
+
+Example ex1_cycle :
+  match afm_cst (afm_norm afm_ex_model1) with
+  | Ok d => afm_read_cst d = Ok (annotate_fm (afm_norm afm_ex_model1))
+            /\ ptr_wf (annotate_fm (afm_norm afm_ex_model1)) = true
+            /\ afm_write (erase_fm (annotate_fm (afm_norm afm_ex_model1))) = Ok (afm_render d)
+  | Err _ => False
+  end.
+Proof. vm_compute. repeat split; reflexivity. Qed.
+
+Example ex1_norm_ok : afm_ok (afm_norm afm_ex_model1) = true.
 Proof. vm_compute. reflexivity. Qed.
 
 Print Assumptions afm_read_ptr_wf.
@@ -1781,3 +1903,8 @@ Print Assumptions afm_norm_ok.
 Print Assumptions afm_norm_idempotent.
 Print Assumptions afm_roundtrip.
 Print Assumptions afm_cycles.
+Print Assumptions afm_cycle_text.
+Print Assumptions afm_cycle_cst.
+Print Assumptions afm_item_cases.
+Print Assumptions afm_item_one_child_group.
+Print Assumptions ex1_roundtrip.
